@@ -7,7 +7,8 @@ import re
 import subprocess
 import time
 
-VERIF = '/verif'
+VERIF = os.environ.get('VERIF_ROOT', '/verif')
+REPO = os.environ.get('VERIF_REPO', '/repo')
 COQ = os.path.join(VERIF, 'coq')
 PY = '/venv/bin/python'
 
@@ -85,7 +86,7 @@ def coq_project():
 def run_translator():
     p = subprocess.run([PY, os.path.join(VERIF, 'translator', 'gen.py')], cwd=VERIF,
                        stdout=subprocess.PIPE, stderr=subprocess.STDOUT, text=True,
-                       env=dict(os.environ, PYTHONPATH='/repo'))
+                       env=dict(os.environ, PYTHONPATH=REPO, VERIF_REPO=REPO))
     failures = [l for l in p.stdout.split('\n') if l.startswith('KERNEL-FAIL')]
     return p.returncode == 0, failures, p.stdout
 
